@@ -7,6 +7,20 @@
 
 #ifndef VERIF_SEGMENTS
 #define VERIF_LOOP(id) VERIF_LOOP_##id
+
+/* ---- C14: the three loops of the Nuked core's buffered-write / sample functions (src/chips/nuked/ym3438.c).
+ * NUKED_INV comes from nuked_contracts.h, which the harness includes before the repository file. Partial correctness:
+ * `while(skip--)` and the queue flush have no variant here (termination of the core is not part of the claim). */
+#define VERIF_LOOP_nuked_writebuffered_skip \
+    __CPROVER_assigns(skip, __CPROVER_object_whole(chip), __CPROVER_object_whole(buffer)) \
+    __CPROVER_loop_invariant(NUKED_INV(chip))
+#define VERIF_LOOP_nuked_generate_cycles \
+    __CPROVER_assigns(i, mute, channel, __CPROVER_object_whole(buffer), buf[0], buf[1], __CPROVER_object_whole(chip)) \
+    __CPROVER_loop_invariant(i <= 24 && NUKED_INV(chip)) \
+    __CPROVER_decreases(24 - i)
+#define VERIF_LOOP_nuked_generate_flush \
+    __CPROVER_assigns(__CPROVER_object_whole(chip)) \
+    __CPROVER_loop_invariant(NUKED_INV(chip))
 #define VERIF_GHOST(decl) decl
 #define VERIF_ENTRY(id)
 #else
